@@ -955,7 +955,7 @@ pub struct RowEntry {
     pub name: String,
     pub desc: Desc,
     /// TypedRowIterator::<R>::new over a RawRowIterator of `nrows` rows held by `data`:
-    /// `ok:<rows the iterator yields>` or the leaf of the row type-check error
+    /// `ok:<rows decoded>:<rows that failed to decode>` or the leaf of the row type-check error
     pub new: fn(&[ColumnSpec<'static>], usize, &bytes::Bytes) -> String,
 }
 pub fn row_tck_leaf(e: &TypeCheckError) -> String {
